@@ -1,6 +1,7 @@
 (* C01 - Hostile server responses never crash or hang a query.
    Rows proved so far: valve::query (every Valve game wrapper calls it). *)
 From GD Require Import Base.Prelude Model.Strings Model.Buffer Model.Net Model.Valve Model.Quake Model.Unreal2 Proofs.Msafe Proofs.ValveTotal Proofs.QuakeTotal Proofs.Unreal2Total.
+From GD Require Import Model.Gamespy Model.Games Model.View Model.Minecraft Proofs.GamesTotal.
 
 (* For every reply script (any datagrams, timeouts, send failures, in any
    order and number), every engine, gather and accepted timeout setting, the
@@ -38,3 +39,31 @@ Example c01_ex_hostile :
          (net_init [Datagram [254; 255; 255; 255; 1; 0; 0; 128; 0; 0; 0; 0]; Datagram []; Timeout] [] []))
   = Err PacketUnderflow.
 Proof. reflexivity. Qed.
+
+(* Savage 2, Mindustry and every Minecraft entry point (Java, Bedrock, legacy
+   1.6 / 1.4 / beta 1.8, the legacy chain and the auto-detecting query): for
+   every script of datagrams, TCP streams and send failures the query returns a
+   response or an error. json stands for serde_json::from_str, assumed only to
+   answer (with a value or with "invalid"). *)
+Theorem c01_savage2_total : forall port t u tc sf, settings_ok t ->
+  safe (fst (savage2_query port t (net_init u tc sf))).
+Proof. exact savage2_total. Qed.
+Print Assumptions c01_savage2_total.
+Theorem c01_mindustry_total : forall port t u tc sf, settings_ok t ->
+  safe (fst (mindustry_query port t (net_init u tc sf))).
+Proof. exact mindustry_total. Qed.
+Print Assumptions c01_mindustry_total.
+Theorem c01_minecraft_total : forall json port t rs u tc sf,
+  (forall x, json x <> None) -> settings_ok t ->
+  safe (fst (query_auto json port t rs (net_init u tc sf))) /\
+  safe (fst (query_java json port t rs (net_init u tc sf))) /\
+  safe (fst (query_bedrock port t (net_init u tc sf))) /\
+  safe (fst (query_legacy port t (net_init u tc sf))) /\
+  (forall g, safe (fst (query_legacy_specific g port t (net_init u tc sf)))).
+Proof. exact minecraft_total. Qed.
+Print Assumptions c01_minecraft_total.
+(* the reply parsers of Frontlines: Fuel of War and of the Minecraft formats never leave the packet *)
+Theorem c01_parsers_safe : Rsafe ffow_parse /\ Rsafe savage2_parse /\ Rsafe mindustry_parse /\ Rsafe bedrock_parse
+  /\ (forall g d, safe (legacy_parse g d)) /\ (forall v, safe (java_of_value v)).
+Proof. exact (conj ffow_parse_safe (conj savage2_parse_safe (conj mindustry_parse_safe (conj bedrock_parse_safe (conj legacy_parse_safe java_of_value_safe))))). Qed.
+Print Assumptions c01_parsers_safe.
